@@ -117,7 +117,7 @@ func init() {
 	}
 }
 
-// indexModel: strings.Index / LastIndex with the occurrence characterisation.
+// indexModel: strings.Index / LastIndex; the occurrence characterisation is a background axiom (sorts.go).
 func (vc *VC) indexModel(s *State, str, sub *Term, last bool) *Term {
 	name := "std.strings.Index"
 	doc := stdDocs["strings.Index"]
@@ -126,17 +126,7 @@ func (vc *VC) indexModel(s *State, str, sub *Term, last bool) *Term {
 		doc = stdDocs["strings.LastIndex"]
 	}
 	vc.prog.Assumed[doc] = true
-	r := s.name("idx", App(name, SInt, str, sub))
-	occ := func(i *Term) *Term { return App("str.occursAt", SBool, str, sub, i) }
-	s.assume(And(Ge(r, IntLit(-1)), Le(r, Sub(strLen(str), strLen(sub)))))
-	s.assume(Implies(Ge(r, IntLit(0)), occ(r)))
-	j := BoundVar("oj", SInt)
-	if last {
-		s.assume(Forall([]*Term{j}, Implies(occ(j), And(Le(j, r), Ge(r, IntLit(0)))), []*Term{occ(j)}))
-	} else {
-		s.assume(Forall([]*Term{j}, Implies(And(occ(j), Ge(j, IntLit(0))), And(Ge(j, r), Ge(r, IntLit(0)))), []*Term{occ(j)}))
-	}
-	return r
+	return App(name, SInt, str, sub)
 }
 
 // splitNModel models strings.SplitN for a constant n >= 1.
